@@ -15,7 +15,7 @@ def run(ctx):
     quick = ctx.quick()
     npairs = 2 if quick else 10
     evo = evolution_specs(ctx, npairs)
-    cres, thm, ref, ref_err, bins, berr, units = common_setup(ctx, PROPS, 2 if quick else 30, evo)
+    cres, thm, ref, ref_err, bins, berr, units = common_setup(ctx, PROPS, 2 if quick else 30, evo + [wide_spec(ctx)])
     nrand = 3 if quick else 30
     ntl1 = 3 if quick else 30
     nre = 3 if quick else 8
@@ -72,7 +72,7 @@ def run(ctx):
         valid, e = valid_values(u, tops, rng, src)
         if e:
             uerr.append((u.name, e))
-        st = {"schemas": 1, "types": len(tops), "valid_values": len(valid), "reencodings": 0, "reenc_changed": 0, "oversize_inputs": 0, "truncated_inputs": 0, "rw_ops": 0}
+        st = {"schemas": 1, "types": len(tops), "valid_values": len(valid), "reencodings": 0, "reenc_changed": 0, "oversize_inputs": 0, "truncated_inputs": 0, "rw_ops": 0, "dirty_ops": 0}
         ukinds = {}
         ops = []      # (line, kind, expected rewrite or None, must be rejected)
         if True:
@@ -108,6 +108,23 @@ def run(ctx):
         if e:
             uerr.append((u.name, e))
         st["rw_ops"] = len(lines)
+        # the same reads into a REUSED object (it has decoded the largest value of the type first): the
+        # result must be the one a fresh object gives -- fields missing at the end of a body are reset
+        dirty = {}
+        for tid, name, h in valid:
+            if h != "-" and len(h) > len(dirty.get(tid, "")):
+                dirty[tid] = h
+        dl = [(i, f"rw2d {l.split(' ')[1]} {l.split(' ')[2]} {dirty[int(l.split(' ')[1])]} {l.split(' ')[3]}")
+              for i, l in enumerate(lines) if int(l.split(" ")[1]) in dirty]
+        do = run_lines_resilient(u.gen.exe, [], [x[1] for x in dl], timeout=900)
+        st["dirty_ops"] = len(dl)
+        for (i, l), d in zip(dl, do):
+            g = go[i]
+            if g.startswith(("panic", "crash", "driver-error")) or d == "dirty-err":
+                continue
+            if d != g:
+                f = l.split(" ")
+                ubad.append((u.name, l, d + " (a fresh object gives " + trunc(g, 120) + ")", f"C13:reused-object:{ops[i][1].split(':')[0]}:{u.name}:{f[2]}"))
         for i, ((l, kind, want, must_reject), g) in enumerate(zip(ops, go)):
             f = l.split(" ")
             n = 0 if f[3] == "-" else len(f[3]) // 2
@@ -152,6 +169,18 @@ def run(ctx):
         m1, e = model_run(ref, mv_o, l1, 1)
         if e:
             uerr.append((uo.name, e))
+        # ... and into an old object that already holds another value of the type
+        best = {}
+        for l, g in zip(l1, g1):
+            f, gf = l.split(" "), g.split(" ")
+            if g.startswith("ok ") and len(gf) == 3 and gf[2] != "-" and len(gf[2]) > len(best.get(f[2], "")):
+                best[f[2]] = gf[2]
+        l1d = [(i1, f"rw2d {l.split(' ')[1]} {l.split(' ')[2]} {best[l.split(' ')[2]]} {l.split(' ')[3]}")
+               for i1, l in enumerate(l1) if l.split(" ")[2] in best]
+        g1d = run_lines_resilient(uo.gen.exe, [], [x[1] for x in l1d], timeout=600)
+        for (i1, l), d in zip(l1d, g1d):
+            if d != g1[i1] and d != "dirty-err" and not g1[i1].startswith(("panic", "crash")):
+                ubad.append((uo.name, l, d + " (a fresh object gives " + trunc(g1[i1], 120) + ")", f"C13:reused-object:new-writer-old-reader:{l.split(' ')[2]}"))
         l2 = []
         for i1, (l, g) in enumerate(zip(l1, g1)):
             f, gf = l.split(" "), g.split(" ")
@@ -180,7 +209,7 @@ def run(ctx):
         with lock:
             stats["evolution_pairs"] += 1
             stats["evolution_values"] += len(vals)
-            stats["evolution_ops"] += len(l1) + len(l2) + len(l3)
+            stats["evolution_ops"] += len(l1) + len(l1d) + len(l2) + len(l3)
             unit_errors.extend(uerr)
             bad.extend(ubad)
             mism.extend(umism)
@@ -202,14 +231,14 @@ def run(ctx):
         "checker_cmd": f"make -f Makefile.coq theories/{PROPS}.vo (coqc 8.16.1, full .vo build, in /verif/coq)",
         "trusted_base": trusted_base(thm) + ["untrusted: ocaml/tl2/relax2.ml (generator of re-encodings) and lib/tl2_lib.evolve_schema (their outputs are judged by both readers)"],
         "theorems": thm["statements"], "assumptions_per_theorem": thm["assumptions"],
-        "evaluations": stats["rw_ops"] + stats["evolution_ops"], "distinct_nontrivial": stats["reenc_changed"] + stats["evolution_values"],
+        "evaluations": stats["rw_ops"] + stats.get("dirty_ops", 0) + stats["evolution_ops"], "distinct_nontrivial": stats["reenc_changed"] + stats["evolution_values"],
         "rule": "per schema and top-level type: values written in TL2 by the generated code are re-encoded by a generator of admissible "
                 "re-encodings (kinds below) and read by the generated code and by the extracted model: verdict, consumed length and canonical "
                 "rewrite compared; model-free oracle: the rewrite equals the original canonical bytes and the whole input is consumed; inputs whose "
-                "outermost declared size exceeds the remaining input, and truncated inputs, must be rejected; schema pairs (random schema, copy with "
+                "outermost declared size exceeds the remaining input, and truncated inputs, must be rejected; every read is repeated into a REUSED object (one that decoded the largest value of the type before) and must give the result of a fresh object; a unit of structs with 8-20 fields and values whose non-default fields all lie before a cut (bodies ending on a presence-block boundary) is always included; schema pairs (random schema, copy with "
                 "fields appended): bytes written by the new package are read by the old package (and by the model under the old schema), the old "
                 "package's rewrite is read by the new package, and old(new(old)) is stable; non-trivial = re-encoding that differs from the canonical bytes / evolution value",
-        "op_kinds": {"rw2": stats["rw_ops"], "rw2-evolution": stats["evolution_ops"]},
+        "op_kinds": {"rw2": stats["rw_ops"], "rw2d-reused-object": stats.get("dirty_ops", 0), "rw2-evolution": stats["evolution_ops"]},
         "reencoding_kinds": kinds,
         "stats": stats, "correspondence": CORR, "correspondence_mismatches": len(mism), "oracle_failures": len(bad),
         "outside_model": skipped or "none: every unit's dump satisfies wf2",
